@@ -16,13 +16,20 @@ ASSUMPTIONS = [
 ]
 SPEC = {'conf_quick': [('K2', 3)],
  'conf_thorough': [('K2', 4), ('K10', 3)],
- 'quick': [('K1', 'std', 3),
+ 'quick': [('K1', 'ar', 7),
+           ('K10', 'ar', 7),
+           ('K16', 'cross', 4),
+           ('K1', 'std', 3),
            ('K2', 'std', 3),
            ('K10', 'lend', 4),
            ('K4', 'small', 4),
            ('K7', 'small', 3),
            ('K12', 'lend', 4)],
- 'thorough': [('K0', 'std', 4),
+ 'thorough': [('K1', 'ar', 8),
+              ('K10', 'ar', 8),
+              ('K13', 'ar', 8),
+              ('K16', 'cross', 5),
+              ('K0', 'std', 4),
               ('K1', 'std', 4),
               ('K2', 'std', 4),
               ('K3', 'std', 4),
